@@ -49,7 +49,8 @@ def untag (s : String) : String := if s == "_" then "" else s
 def entag (s : String) : String := if s.isEmpty then "_" else s
 
 def parseMask (s : String) : Option (List Bool) :=
-  if s.length == 3 then some (s.toList.map (· == '1')) else none
+  -- an optional suffix `pXYZ` (tag projection order of the row-path request) does not change the semantics
+  if s.length ≥ 3 then some ((s.toList.take 3).map (· == '1')) else none
 
 def splitLimit (s : String) : String × Option Nat :=
   match s.splitOn "@" with
